@@ -1,3 +1,412 @@
-//! C06 — not yet built
-use crate::ctx::Ctx;
-pub fn run(c: &mut Ctx) { c.notes.push("C06: not implemented".into()); }
+//! C06 — Standard security handler agrees with ISO 32000 algorithms.
+//!
+//! `refimpl` is an INDEPENDENT implementation of the standard security handler, written from
+//! the algorithm text of ISO 32000-1:2008 §7.6 (Algorithms 1–7) and ISO 32000-2:2020 §7.6
+//! (Algorithms 1.A, 2.A, 2.B, 8–13) directly on the md-5 / sha2 / aes crates plus an own RC4 and
+//! own CBC chaining.  It shares no code with lopdf (lopdf's `Object` types are used only as a
+//! container for documents).  It is also the oracle of C05.
+use crate::codec::*;
+use crate::ctx::{guard, Ctx};
+use crate::rng::Rng;
+use lopdf::{Dictionary, Document, Object, ObjectId, Stream, StringFormat};
+use serde_json::json;
+
+pub mod refimpl {
+    use aes::cipher::{generic_array::GenericArray, BlockDecrypt, BlockEncrypt, KeyInit};
+    use lopdf::{Dictionary, Document, Object, ObjectId};
+    use md5::{Digest, Md5};
+    use sha2::{Sha256, Sha384, Sha512};
+
+    /// ISO 32000-1 Algorithm 2 step (a): the 32-byte padding string
+    pub const PAD: [u8; 32] = [
+        0x28, 0xBF, 0x4E, 0x5E, 0x4E, 0x75, 0x8A, 0x41, 0x64, 0x00, 0x4E, 0x56, 0xFF, 0xFA, 0x01, 0x08,
+        0x2E, 0x2E, 0x00, 0xB6, 0xD0, 0x68, 0x3E, 0x80, 0x2F, 0x0C, 0xA9, 0xFE, 0x64, 0x53, 0x69, 0x7A,
+    ];
+
+    pub fn md5(data: &[u8]) -> Vec<u8> { Md5::digest(data).to_vec() }
+    pub fn sha256(data: &[u8]) -> Vec<u8> { Sha256::digest(data).to_vec() }
+    pub fn sha384(data: &[u8]) -> Vec<u8> { Sha384::digest(data).to_vec() }
+    pub fn sha512(data: &[u8]) -> Vec<u8> { Sha512::digest(data).to_vec() }
+
+    /// RC4 (own implementation: KSA + PRGA as in the original description)
+    pub fn rc4(key: &[u8], data: &[u8]) -> Vec<u8> {
+        assert!(!key.is_empty());
+        let mut s: Vec<u8> = (0..=255u8).collect();
+        let mut j: usize = 0;
+        for i in 0..256 {
+            j = (j + s[i] as usize + key[i % key.len()] as usize) % 256;
+            s.swap(i, j);
+        }
+        let (mut i, mut j) = (0usize, 0usize);
+        let mut out = Vec::with_capacity(data.len());
+        for b in data {
+            i = (i + 1) % 256;
+            j = (j + s[i] as usize) % 256;
+            s.swap(i, j);
+            out.push(b ^ s[(s[i] as usize + s[j] as usize) % 256]);
+        }
+        out
+    }
+
+    pub fn aes_enc_block(key: &[u8], block: &[u8]) -> Vec<u8> {
+        let mut b = GenericArray::clone_from_slice(block);
+        match key.len() {
+            16 => aes::Aes128::new(GenericArray::from_slice(key)).encrypt_block(&mut b),
+            32 => aes::Aes256::new(GenericArray::from_slice(key)).encrypt_block(&mut b),
+            _ => panic!("aes key length"),
+        }
+        b.to_vec()
+    }
+    pub fn aes_dec_block(key: &[u8], block: &[u8]) -> Vec<u8> {
+        let mut b = GenericArray::clone_from_slice(block);
+        match key.len() {
+            16 => aes::Aes128::new(GenericArray::from_slice(key)).decrypt_block(&mut b),
+            32 => aes::Aes256::new(GenericArray::from_slice(key)).decrypt_block(&mut b),
+            _ => panic!("aes key length"),
+        }
+        b.to_vec()
+    }
+    /// CBC, no padding; `data.len()` must be a multiple of 16
+    pub fn cbc_enc(key: &[u8], iv: &[u8], data: &[u8]) -> Vec<u8> {
+        assert!(data.len() % 16 == 0 && iv.len() == 16);
+        let mut prev = iv.to_vec();
+        let mut out = Vec::with_capacity(data.len());
+        for blk in data.chunks(16) {
+            let x: Vec<u8> = blk.iter().zip(prev.iter()).map(|(a, b)| a ^ b).collect();
+            prev = aes_enc_block(key, &x);
+            out.extend_from_slice(&prev);
+        }
+        out
+    }
+    pub fn cbc_dec(key: &[u8], iv: &[u8], data: &[u8]) -> Vec<u8> {
+        assert!(data.len() % 16 == 0 && iv.len() == 16);
+        let mut prev = iv.to_vec();
+        let mut out = Vec::with_capacity(data.len());
+        for blk in data.chunks(16) {
+            let d = aes_dec_block(key, blk);
+            out.extend(d.iter().zip(prev.iter()).map(|(a, b)| a ^ b));
+            prev = blk.to_vec();
+        }
+        out
+    }
+
+    /// "Pad or truncate the password string to exactly 32 bytes"
+    pub fn pad_pw(pw: &[u8]) -> Vec<u8> {
+        let mut v: Vec<u8> = pw.iter().take(32).cloned().collect();
+        let need = 32 - v.len();
+        v.extend_from_slice(&PAD[..need]);
+        v
+    }
+
+    /// Algorithm 2: computing a file encryption key (R2–R4). `p` is the P integer as stored.
+    pub fn alg2(pw: &[u8], o: &[u8], p: i64, id0: &[u8], r: i64, key_bytes: usize, encrypt_metadata: bool) -> Vec<u8> {
+        let mut input = pad_pw(pw);                                   // a, b
+        input.extend_from_slice(o);                                   // c
+        input.extend_from_slice(&(p as u32).to_le_bytes());           // d: 32-bit unsigned, low-order byte first
+        input.extend_from_slice(id0);                                 // e
+        if r >= 4 && !encrypt_metadata { input.extend_from_slice(&[0xff; 4]); }   // f
+        let mut h = md5(&input);                                      // g
+        let n = if r == 2 { 5 } else { key_bytes };
+        if r >= 3 { for _ in 0..50 { h = md5(&h[..n]); } }            // h
+        h[..n].to_vec()                                               // i
+    }
+
+    /// RC4 key of Algorithm 3 steps a–d
+    fn owner_rc4_key(owner_pw: &[u8], r: i64, key_bytes: usize) -> Vec<u8> {
+        let mut h = md5(&pad_pw(owner_pw));
+        if r >= 3 { for _ in 0..50 { h = md5(&h); } }
+        let n = if r == 2 { 5 } else { key_bytes };
+        h[..n].to_vec()
+    }
+    fn xor_key(key: &[u8], i: u8) -> Vec<u8> { key.iter().map(|b| b ^ i).collect() }
+
+    /// Algorithm 3: computing the O value. `owner_pw = None` ("no owner password") uses the user password.
+    pub fn alg3(owner_pw: Option<&[u8]>, user_pw: &[u8], r: i64, key_bytes: usize) -> Vec<u8> {
+        let k = owner_rc4_key(owner_pw.unwrap_or(user_pw), r, key_bytes);
+        let mut x = rc4(&k, &pad_pw(user_pw));
+        if r >= 3 { for i in 1..=19u8 { x = rc4(&xor_key(&k, i), &x); } }
+        x
+    }
+    /// Algorithm 4 (R2) / Algorithm 5 (R3, R4): the U value; only the first 16 bytes are significant for R≥3
+    pub fn alg4_5(key: &[u8], id0: &[u8], r: i64) -> Vec<u8> {
+        if r == 2 { return rc4(key, &PAD); }
+        let mut input = PAD.to_vec();
+        input.extend_from_slice(id0);
+        let mut x = rc4(key, &md5(&input));
+        for i in 1..=19u8 { x = rc4(&xor_key(key, i), &x); }
+        x
+    }
+
+    #[derive(Clone, Debug)]
+    pub struct EncDict {
+        pub v: i64, pub r: i64, pub length_bits: Option<i64>, pub p: i64, pub encrypt_metadata: bool,
+        pub o: Vec<u8>, pub u: Vec<u8>, pub oe: Vec<u8>, pub ue: Vec<u8>, pub perms: Vec<u8>,
+        /// CF: name -> CFM name
+        pub cf: Vec<(Vec<u8>, Vec<u8>)>,
+        pub stmf: Option<Vec<u8>>, pub strf: Option<Vec<u8>>,
+    }
+    impl EncDict {
+        pub fn key_bytes(&self) -> usize {
+            match self.v { 1 => 5, 2 | 3 => (self.length_bits.unwrap_or(40) / 8) as usize, 4 => 16, _ => 32 }
+        }
+    }
+
+    /// Algorithm 6: authenticating the user password → the file encryption key
+    pub fn alg6(d: &EncDict, id0: &[u8], pw: &[u8]) -> Option<Vec<u8>> {
+        let key = alg2(pw, &d.o, d.p, id0, d.r, d.key_bytes(), d.encrypt_metadata);
+        let u = alg4_5(&key, id0, d.r);
+        let ok = if d.r == 2 { u == d.u } else { d.u.len() >= 16 && u[..16] == d.u[..16] };
+        if ok { Some(key) } else { None }
+    }
+    /// Algorithm 7: authenticating the owner password → the file encryption key
+    pub fn alg7(d: &EncDict, id0: &[u8], pw: &[u8]) -> Option<Vec<u8>> {
+        let k = owner_rc4_key(pw, d.r, d.key_bytes());
+        let user_pw = if d.r == 2 { rc4(&k, &d.o) } else {
+            let mut x = d.o.clone();
+            for i in (0..=19u8).rev() { x = rc4(&xor_key(&k, i), &x); }
+            x
+        };
+        alg6(d, id0, &user_pw)
+    }
+
+    /// Algorithm 2.B: computing a hash (R6); R5 = SHA-256 of the input.
+    pub fn alg2b(r: i64, pw: &[u8], salt: &[u8], udata: &[u8]) -> Vec<u8> {
+        let mut input = pw.to_vec(); input.extend_from_slice(salt); input.extend_from_slice(udata);
+        let mut k = sha256(&input);
+        if r == 5 { return k; }
+        let mut round: u32 = 0;
+        loop {
+            // a) K1 = 64 repetitions of (password ‖ K ‖ [U])
+            let mut k0 = pw.to_vec(); k0.extend_from_slice(&k); k0.extend_from_slice(udata);
+            let mut k1 = Vec::with_capacity(k0.len() * 64);
+            for _ in 0..64 { k1.extend_from_slice(&k0); }
+            // b) AES-128 CBC no padding, key = K[0..16], IV = K[16..32]
+            let e = cbc_enc(&k[..16], &k[16..32], &k1);
+            // c) first 16 bytes of E as unsigned big-endian integer mod 3
+            let mut m: u32 = 0;
+            for b in &e[..16] { m = (m * 256 + *b as u32) % 3; }
+            // d)
+            k = match m { 0 => sha256(&e), 1 => sha384(&e), _ => sha512(&e) };
+            // e) rounds 0..63 always; from round 64 on stop when last byte of E <= round - 32
+            round += 1;                              // `round` = number of rounds done
+            if round >= 64 && (*e.last().unwrap() as u32) <= round - 32 { break; }
+        }
+        k[..32].to_vec()
+    }
+    fn trunc127(pw: &[u8]) -> &[u8] { if pw.len() > 127 { &pw[..127] } else { pw } }
+
+    /// Algorithm 8: U and UE. `salts` = validation salt ‖ key salt (16 bytes)
+    pub fn alg8(r: i64, pw: &[u8], key: &[u8], salts: &[u8]) -> (Vec<u8>, Vec<u8>) {
+        let pw = trunc127(pw);
+        let mut u = alg2b(r, pw, &salts[..8], &[]);
+        u.extend_from_slice(salts);
+        let ue = cbc_enc(&alg2b(r, pw, &salts[8..16], &[]), &[0; 16], key);
+        (u, ue)
+    }
+    /// Algorithm 9: O and OE
+    pub fn alg9(r: i64, pw: &[u8], key: &[u8], salts: &[u8], u: &[u8]) -> (Vec<u8>, Vec<u8>) {
+        let pw = trunc127(pw);
+        let mut o = alg2b(r, pw, &salts[..8], u);
+        o.extend_from_slice(salts);
+        let oe = cbc_enc(&alg2b(r, pw, &salts[8..16], u), &[0; 16], key);
+        (o, oe)
+    }
+    /// Algorithm 10: Perms
+    pub fn alg10(p: i64, encrypt_metadata: bool, key: &[u8], rnd: &[u8]) -> Vec<u8> {
+        let mut b = vec![0u8; 16];
+        b[..4].copy_from_slice(&(p as u32).to_le_bytes());
+        b[4..8].copy_from_slice(&[0xff; 4]);
+        b[8] = if encrypt_metadata { b'T' } else { b'F' };
+        b[9] = b'a'; b[10] = b'd'; b[11] = b'b';
+        b[12..16].copy_from_slice(&rnd[..4]);
+        aes_enc_block(key, &b)
+    }
+    /// Algorithm 2.A (with 11/12/13): → (file key, is_owner)
+    pub fn alg2a(d: &EncDict, pw: &[u8], skip_alg13: bool) -> Option<(Vec<u8>, bool)> {
+        let pw = trunc127(pw);
+        if d.o.len() < 48 || d.u.len() < 48 || d.oe.len() != 32 || d.ue.len() != 32 { return None; }
+        let (key, owner) = if alg2b(d.r, pw, &d.o[32..40], &d.u[..48]) == d.o[..32] {          // Algorithm 12
+            (cbc_dec(&alg2b(d.r, pw, &d.o[40..48], &d.u[..48]), &[0; 16], &d.oe), true)
+        } else if alg2b(d.r, pw, &d.u[32..40], &[]) == d.u[..32] {                              // Algorithm 11
+            (cbc_dec(&alg2b(d.r, pw, &d.u[40..48], &[]), &[0; 16], &d.ue), false)
+        } else { return None; };
+        // Algorithm 13
+        if skip_alg13 { return Some((key, owner)); }
+        if d.perms.len() != 16 { return None; }
+        let b = aes_dec_block(&key, &d.perms);
+        if &b[9..12] != b"adb" { return None; }
+        if b[..4] != (d.p as u32).to_le_bytes() { return None; }
+        Some((key, owner))
+    }
+
+    /// Algorithm 1 / 1.A: key for one object
+    pub fn object_key(file_key: &[u8], id: ObjectId, aes: bool, v5: bool) -> Vec<u8> {
+        if v5 { return file_key.to_vec(); }
+        let mut input = file_key.to_vec();
+        input.extend_from_slice(&id.0.to_le_bytes()[..3]);
+        input.extend_from_slice(&id.1.to_le_bytes()[..2]);
+        if aes { input.extend_from_slice(b"sAlT"); }
+        let n = (file_key.len() + 5).min(16);
+        md5(&input)[..n].to_vec()
+    }
+
+    #[derive(Clone, Copy, PartialEq, Eq, Debug)]
+    pub enum Method { None, V2, AesV2, AesV3 }
+
+    pub fn encrypt_data(m: Method, file_key: &[u8], id: ObjectId, iv: &[u8], data: &[u8]) -> Vec<u8> {
+        match m {
+            Method::None => data.to_vec(),
+            Method::V2 => rc4(&object_key(file_key, id, false, false), data),
+            Method::AesV2 | Method::AesV3 => {
+                let key = object_key(file_key, id, true, m == Method::AesV3);
+                let n = 16 - data.len() % 16;
+                let mut padded = data.to_vec();
+                padded.extend(std::iter::repeat(n as u8).take(n));
+                let mut out = iv.to_vec();
+                out.extend(cbc_enc(&key, iv, &padded));
+                out
+            }
+        }
+    }
+    pub fn decrypt_data(m: Method, file_key: &[u8], id: ObjectId, data: &[u8]) -> Result<Vec<u8>, String> {
+        match m {
+            Method::None => Ok(data.to_vec()),
+            Method::V2 => Ok(rc4(&object_key(file_key, id, false, false), data)),
+            Method::AesV2 | Method::AesV3 => {
+                let key = object_key(file_key, id, true, m == Method::AesV3);
+                if data.len() < 32 || data.len() % 16 != 0 {
+                    if data.is_empty() { return Ok(vec![]); }
+                    return Err(format!("aes data length {}", data.len()));
+                }
+                let mut pt = cbc_dec(&key, &data[..16], &data[16..]);
+                let n = *pt.last().unwrap() as usize;
+                if n == 0 || n > 16 || pt[pt.len() - n..].iter().any(|b| *b as usize != n) { return Err("padding".into()); }
+                pt.truncate(pt.len() - n);
+                Ok(pt)
+            }
+        }
+    }
+
+    pub fn read_enc_dict(d: &Dictionary) -> Option<EncDict> {
+        let s = |k: &[u8]| d.get(k).ok().and_then(|o| o.as_str().ok()).map(|s| s.to_vec());
+        let i = |k: &[u8]| d.get(k).ok().and_then(|o| o.as_i64().ok());
+        let n = |k: &[u8]| d.get(k).ok().and_then(|o| o.as_name().ok()).map(|s| s.to_vec());
+        let mut cf = vec![];
+        if let Ok(Object::Dictionary(cfd)) = d.get(b"CF") {
+            for (name, f) in cfd.iter() {
+                if let Object::Dictionary(fd) = f {
+                    let cfm = fd.get(b"CFM").ok().and_then(|o| o.as_name().ok()).map(|s| s.to_vec()).unwrap_or(b"None".to_vec());
+                    cf.push((name.clone(), cfm));
+                }
+            }
+        }
+        Some(EncDict {
+            v: i(b"V").unwrap_or(0), r: i(b"R")?, length_bits: i(b"Length"), p: i(b"P")?,
+            encrypt_metadata: match d.get(b"EncryptMetadata") { Ok(Object::Boolean(b)) => *b, _ => true },
+            o: s(b"O")?, u: s(b"U")?, oe: s(b"OE").unwrap_or_default(), ue: s(b"UE").unwrap_or_default(),
+            perms: s(b"Perms").unwrap_or_default(), cf, stmf: n(b"StmF"), strf: n(b"StrF"),
+        })
+    }
+
+    /// ISO 32000 §7.6.5: which method a crypt filter name selects. `Identity` is predefined;
+    /// absent StmF / StrF default to Identity; V < 4 always uses RC4 with the file key (Algorithm 1).
+    pub fn method_of(d: &EncDict, name: Option<&[u8]>) -> Method {
+        if d.v < 4 { return Method::V2; }
+        match name {
+            None => Method::None,
+            Some(b"Identity") => Method::None,
+            Some(nm) => match d.cf.iter().find(|(k, _)| k == nm) {
+                Some((_, cfm)) => match cfm.as_slice() { b"V2" => Method::V2, b"AESV2" => Method::AesV2, b"AESV3" => Method::AesV3, _ => Method::None },
+                None => Method::None,
+            },
+        }
+    }
+
+    pub fn file_id0(doc: &Document) -> Vec<u8> {
+        match doc.trailer.get(b"ID") { Ok(Object::Array(a)) => match a.first() { Some(Object::String(s, _)) => s.clone(), _ => vec![] }, _ => vec![] }
+    }
+
+    /// authenticate a password against an encryption dictionary → (file key, is_owner)
+    pub fn authenticate(d: &EncDict, id0: &[u8], pw: &[u8], skip_alg13: bool) -> Option<(Vec<u8>, bool)> {
+        if d.r >= 5 { return alg2a(d, pw, skip_alg13); }
+        if let Some(k) = alg7(d, id0, pw) { return Some((k, true)); }
+        alg6(d, id0, pw).map(|k| (k, false))
+    }
+
+    fn stream_method(d: &EncDict, sd: &Dictionary) -> Method {
+        // §7.6.5 / Table 14: a Crypt filter in the stream's Filter array overrides StmF;
+        // its DecodeParms Name selects the crypt filter (default Identity).
+        let filters: Vec<Vec<u8>> = match sd.get(b"Filter") {
+            Ok(Object::Name(n)) => vec![n.clone()],
+            Ok(Object::Array(a)) => a.iter().filter_map(|o| o.as_name().ok().map(|n| n.to_vec())).collect(),
+            _ => vec![],
+        };
+        if let Some(pos) = filters.iter().position(|f| f == b"Crypt") {
+            let parms = match sd.get(b"DecodeParms") {
+                Ok(Object::Dictionary(p)) => Some(p),
+                Ok(Object::Array(a)) => a.get(pos).and_then(|o| o.as_dict().ok()),
+                _ => None,
+            };
+            let name = parms.and_then(|p| p.get(b"Name").ok()).and_then(|o| o.as_name().ok());
+            return method_of(d, Some(name.unwrap_or(b"Identity")));
+        }
+        method_of(d, d.stmf.as_deref())
+    }
+
+    /// which top-level traversal: strings everywhere (including stream dictionaries), stream data;
+    /// not: the encryption dictionary, XRef streams, the Metadata stream when EncryptMetadata is false
+    /// (its data is left as is; §7.6.5: "only the stream data").
+    pub enum Dir<'a> { Enc(&'a mut dyn FnMut() -> Vec<u8>), Dec }
+
+    pub fn crypt_object(d: &EncDict, file_key: &[u8], id: ObjectId, o: &mut Object, dir: &mut Dir, in_stream_dicts: bool) -> Result<(), String> {
+        match o {
+            Object::String(s, _) => {
+                let m = method_of(d, d.strf.as_deref());
+                *s = match dir { Dir::Enc(iv) => { let iv = if matches!(m, Method::AesV2 | Method::AesV3) { iv() } else { vec![] }; encrypt_data(m, file_key, id, &iv, s) }
+                                 Dir::Dec => decrypt_data(m, file_key, id, s)? };
+            }
+            Object::Array(a) => { for x in a.iter_mut() { crypt_object(d, file_key, id, x, dir, in_stream_dicts)?; } }
+            Object::Dictionary(dict) => { for (_, x) in dict.iter_mut() { crypt_object(d, file_key, id, x, dir, in_stream_dicts)?; } }
+            Object::Stream(st) => {
+                let is_xref = matches!(st.dict.get(b"Type"), Ok(Object::Name(n)) if n == b"XRef");
+                if is_xref { return Ok(()); }
+                if in_stream_dicts { for (_, x) in st.dict.iter_mut() { crypt_object(d, file_key, id, x, dir, in_stream_dicts)?; } }
+                let is_meta = matches!(st.dict.get(b"Type"), Ok(Object::Name(n)) if n == b"Metadata");
+                if is_meta && !d.encrypt_metadata { return Ok(()); }
+                let m = stream_method(d, &st.dict);
+                let new = match dir { Dir::Enc(iv) => { let iv = if matches!(m, Method::AesV2 | Method::AesV3) { iv() } else { vec![] }; encrypt_data(m, file_key, id, &iv, &st.content) }
+                                      Dir::Dec => decrypt_data(m, file_key, id, &st.content)? };
+                st.content = new;
+                st.dict.set("Length", st.content.len() as i64);
+            }
+            _ => {}
+        }
+        Ok(())
+    }
+
+    /// decrypt a whole document (as lopdf holds it in memory) with the reference handler.
+    /// `in_stream_dicts`: also treat strings inside stream dictionaries (ISO) — lopdf never does.
+    pub fn decrypt_document(doc: &Document, pw: &[u8], in_stream_dicts: bool, skip_alg13: bool) -> Result<(Document, bool), String> {
+        let enc_id = match doc.trailer.get(b"Encrypt") { Ok(Object::Reference(id)) => Some(*id), _ => None };
+        let enc_obj = match doc.trailer.get(b"Encrypt") {
+            Ok(Object::Reference(id)) => doc.objects.get(id).ok_or("Encrypt object missing")?.clone(),
+            Ok(o) => o.clone(),
+            Err(_) => return Err("not encrypted".into()),
+        };
+        let Object::Dictionary(ed) = enc_obj else { return Err("Encrypt not a dictionary".into()) };
+        let d = read_enc_dict(&ed).ok_or("bad encryption dictionary")?;
+        let id0 = file_id0(doc);
+        let (key, owner) = authenticate(&d, &id0, pw, skip_alg13).ok_or("password rejected")?;
+        let mut out = doc.clone();
+        for (id, o) in out.objects.iter_mut() {
+            if Some(*id) == enc_id { continue; }
+            crypt_object(&d, &key, *id, o, &mut Dir::Dec, in_stream_dicts).map_err(|e| format!("{:?}: {}", id, e))?;
+        }
+        out.trailer.remove(b"Encrypt");
+        if let Some(id) = enc_id { out.objects.remove(&id); }
+        Ok((out, owner))
+    }
+}
+
+// ---------------------------------------------------------------------------------------------
+pub fn run(c: &mut Ctx) { c.notes.push("C06: not implemented".into()); let _ = (guard(|| ()), json!(null)); let _ : Option<(Rng, Dictionary, Document, Object, ObjectId, Stream, StringFormat)> = None; let _ = hex(&[]); }
